@@ -377,7 +377,7 @@ def r02f(rep, F, files_pat='/control/planners/', rule='R02f', frozen=5):
             if not ((c.get('callee') or '').endswith('::isSatisfied') and 'Goal' in c['callee']):
                 continue
             x = f.strip(args(f, c)[0])
-            if x is None or x['k'] != 'MemberExpr' or x.get('name') not in ('state', 'state_'):
+            if x is None or x['k'] != 'MemberExpr' or x.get('name') not in ('state', 'state_', 'endState_'):
                 continue
             M = nofp(f.fp(x['ch'][0]))
             recs = [y for y in f.walk() if y['k'] == 'BinaryOperator' and y.get('op') == '=' and nofp(f.fp(y['ch'][1])) == M and
